@@ -62,36 +62,7 @@ def layout_variant(g):
 
 
 def random_grammars(count, seed):
-    import random
-
-    rnd = random.Random(seed)
-    out = []
-    nts = ["S", "A", "B"]
-    ts = ["a", "b", "c"]
-    tries = 0
-    while len(out) < count and tries < count * 50:
-        tries += 1
-        k = rnd.randint(5, 8)
-        prods = []
-        for j in range(k):
-            l = "S" if j == 0 else rnd.choice(nts)
-            r = tuple(rnd.choice(nts + ts + ts) for _ in range(rnd.choice([0, 1, 1, 2, 2, 3])))
-            if (l, r) not in prods and r != (l,):
-                prods.append((l, r))
-        used = {l for l, _ in prods}
-        if any(s in nts and s not in used for _, r in prods for s in r):
-            continue
-        terms = {t: ("s", t) for t in ts if any(t in r for _, r in prods)} or {"a": ("s", "a")}
-        prods.sort(key=lambda p: nts.index(p[0]))
-        try:
-            g = GSpec(prods, terms)
-        except AssertionError:
-            continue
-        if set(g.nonterms) != g.productive() or set(g.nonterms) != g.reachable():
-            continue
-        g.name = g.short()
-        out.append(g)
-    return out
+    return corpus.random_grammars(count, seed)
 
 
 def cases(tier, seed):
